@@ -1,6 +1,11 @@
 //! iwe-verif: correspondence check (Lean model vs real code) and property oracles.
 //! Usage: iwe-verif <PROPERTY> --tier quick|thorough --seed N --model <driver> --out <json>
+mod dump;
+mod gen;
+mod hist;
+mod known;
 mod model;
+mod oracle;
 mod props;
 mod report;
 mod rng;
@@ -18,6 +23,22 @@ pub struct Ctx {
 fn main() {
     let args: Vec<String> = std::env::args().collect();
     let prop = args.get(1).cloned().unwrap_or_default();
+    if prop == "debug-atoms" {
+        let t = std::fs::read_to_string(&args[2]).unwrap();
+        for a in oracle::md::atoms(&t, "") {
+            println!("{:?} {:?}", a.path, a.payload);
+        }
+        let out = props::c01::format_single("a", &t, "").unwrap();
+        println!("=== formatted\n{}", out);
+        for a in oracle::md::atoms(&out, "") {
+            println!("{:?} {:?}", a.path, a.payload);
+        }
+        return;
+    }
+    if prop == "debug-gen" {
+        debug_gen(args[2].parse().unwrap(), u64::from_str_radix(&args[3], 16).unwrap(), args[4].parse().unwrap());
+        return;
+    }
     let mut tier = "quick".to_string();
     let mut seed = 1u64;
     let mut model_path = "/verif/lean/.lake/build/bin/iwe_model".to_string();
@@ -37,13 +58,20 @@ fn main() {
         }
         i += 1;
     }
+    // tiny workloads: a large rayon pool only adds scheduling overhead (C16 varies the pool size in subprocesses)
+    if std::env::var("RAYON_NUM_THREADS").is_err() {
+        let _ = rayon::ThreadPoolBuilder::new().num_threads(2).build_global();
+    }
     // panics inside catch_unwind are expected in places: keep stderr quiet
     std::panic::set_hook(Box::new(|_| {}));
     let ctx = Ctx { seed, thorough: tier == "thorough", verif_dir, replay };
     let mut rep = Report::new(&prop);
     let mut model = model::Model::spawn(&model_path);
     match prop.as_str() {
+        "C01" => props::c01::run(&ctx, &mut model, &mut rep),
+        "C04" => props::c04::run(&ctx, &mut model, &mut rep),
         "C15" => props::c15::run(&ctx, &mut model, &mut rep),
+        "C20" => props::c20::run(&ctx, &mut model, &mut rep),
         other => {
             eprintln!("unknown property {}", other);
             std::process::exit(2);
@@ -55,5 +83,14 @@ fn main() {
         println!("{}", text);
     } else {
         std::fs::write(&out, text).unwrap();
+    }
+}
+
+#[allow(dead_code)]
+pub fn debug_gen(seed: u64, salt: u64, idx: u64) {
+    let mut r = rng::Rng::for_case(seed ^ salt, idx);
+    let h = hist::gen_history(&mut r, true, 0);
+    for (k, t) in &h.import {
+        println!("=== {}\n{}", k, t);
     }
 }
